@@ -32,6 +32,7 @@ fields = {}
 for it in ctx.facts.items:
     if it["crate"] == VISITOR_CRATE and it.get("kind") == "struct" and it["path"].split("::")[-1].split("<")[0] == "VueJsxTransformVisitor":
         fields["VueJsxTransformVisitor"] = [f["name"] for f in it["variants"][0]["fields"]]
-out = {"fields": fields, "functions": sorted(fns), "signatures": sigs, "roles": roles, "locals": out}
+structs = sorted(it["path"] for it in ctx.facts.items if it["crate"] == VISITOR_CRATE and it.get("kind") == "struct")
+out = {"fields": fields, "structs": structs, "functions": sorted(fns), "signatures": sigs, "roles": roles, "locals": out}
 json.dump(out, open(os.path.join(extract.VERIF, "rules", "local_names.json"), "w"), indent=0, sort_keys=True)
 print(len(fns), "functions", sum(len(v) for v in out["locals"].values()), "bindings")
